@@ -61,7 +61,9 @@ class VariantMatcher:
 
         self.variant_candidates = variant_candidates
         self.use_cache = use_cache
-        self.req_resp_cache: Dict[bytes, bytes] = {}
+        # the ECU may answer differently depending on the addressing
+        # scheme, so the cache is keyed by addressing scheme and request
+        self.req_resp_cache: Dict[Tuple[bool, bytes], bytes] = {}
         self._recent_ident_response: Optional[bytes] = None
 
         self._state = VariantMatcher.State.PENDING
@@ -106,15 +108,17 @@ class VariantMatcher:
                 for matching_param in pattern.get_matching_parameters():
                     req_bytes = matching_param.get_ident_service(variant).encode_request()
 
-                    if self.use_cache and req_bytes in self.req_resp_cache:
-                        resp_values = copy(self.req_resp_cache[req_bytes])
+                    if isinstance(matching_param, MatchingBaseVariantParameter):
+                        use_physical_addressing = matching_param.use_physical_addressing
                     else:
-                        if isinstance(matching_param, MatchingBaseVariantParameter):
-                            yield matching_param.use_physical_addressing, req_bytes
-                        else:
-                            yield True, req_bytes
+                        use_physical_addressing = True
+                    cache_key = (use_physical_addressing, req_bytes)
+                    if self.use_cache and cache_key in self.req_resp_cache:
+                        resp_values = copy(self.req_resp_cache[cache_key])
+                    else:
+                        yield use_physical_addressing, req_bytes
                         resp_values = self._get_ident_response()
-                        self._update_cache(req_bytes, copy(resp_values))
+                        self._update_cache(cache_key, copy(resp_values))
 
                     cur_response_matches = self._ident_response_matches(
                         variant, matching_param, resp_values)
@@ -198,9 +202,9 @@ class VariantMatcher:
 
         return False
 
-    def _update_cache(self, req_bytes: bytes, resp_bytes: bytes) -> None:
+    def _update_cache(self, cache_key: Tuple[bool, bytes], resp_bytes: bytes) -> None:
         if self.use_cache:
-            self.req_resp_cache[req_bytes] = resp_bytes
+            self.req_resp_cache[cache_key] = resp_bytes
 
     def _get_ident_response(self) -> bytes:
         if self._recent_ident_response is None:
